@@ -1135,7 +1135,8 @@ pub fn c18_overflow(_ctx: &mut Ctx) {}
 #[cfg(feature = "alloc")]
 pub fn c10_amortised(ctx: &mut Ctx) {
     use any_vec::mem::Heap;
-    let n: usize = if ctx.thorough() { 1 << 16 } else { 1 << 12 };
+    // long enough that a growth step capped at any fixed byte size turns visibly linear
+    let n: usize = if ctx.thorough() { 1 << 22 } else { 1 << 20 };
     let mut sp = Sp::new(ctx, "amortised", "Heap-growth".into());
     sp.ctx.ordinal = 0;
     fn run<T: Elem>(sp: &mut Sp, n: usize, how: u8) {
@@ -1178,7 +1179,7 @@ pub fn c10_amortised(ctx: &mut Ctx) {
         let after = monalloc::stats();
         let _ = monalloc::drain_events();
         let reallocs = (after.allocs - before.allocs) + (after.reallocs - before.reallocs);
-        let bound = 4 * (usize::BITS - n.leading_zeros()) as u64 + 8;
+        let bound = 2 * (usize::BITS - n.leading_zeros()) as u64 + 8;
         sp.ctx.stats.bump("amortisation_runs", 1);
         sp.ctx.stats.bump("amortisation_pushes", n as u64);
         match r {
@@ -1204,9 +1205,9 @@ pub fn c10_amortised(ctx: &mut Ctx) {
     for how in 0..4u8 {
         run::<W8>(&mut sp, n, how);
         run::<U1>(&mut sp, n, how);
-        run::<S24d>(&mut sp, n / 4, how);
+        run::<S24d>(&mut sp, n / 8, how);
         run::<L160d>(&mut sp, n / 8, how);
-        run::<Z0d>(&mut sp, n, how);
+        run::<Z0d>(&mut sp, n / 16, how);
         run::<A32d>(&mut sp, n / 4, how);
     }
 }
